@@ -1,12 +1,510 @@
-//! C12 — stub (not built yet).
+//! C12 — polynomial division returns quotient and remainder of a valid Euclidean step.
+//!
+//! Oracle: `(q, r) = a.divide(&d)`; the harness reconstructs `a - (q·d + r)` in twice the working
+//! precision (compensated convolution) and bounds it by the backward-error bound of the
+//! property; `deg r < deg d`; exact multiples leave a zero remainder (up to the same bound times
+//! the amplification of the remainder map, see `kappa`); constant divisors scale; the zero
+//! polynomial is an `Err`; nothing panics.
+
+#[path = "c11/polyref.rs"]
+mod polyref;
+
+use crate::json::J;
+use crate::probe::{guard, Guarded};
 use crate::report::*;
+use crate::rng::{CaseHash, Rng};
+use bacon_sci::polynomial::Polynomial;
+use num_traits::Zero;
+use polyref::*;
+
+// ---- frozen constants
+/// ||a - (q d + r)||_inf <= K·eps·(||q||_1 ||d||_1 + ||a||_1) + tolerance          (observed 2.01)
+const K_RECON: f64 = 16.0;
+/// constant divisor: |q_k - a_k/c| <= K·eps·|a_k/c| (+ tolerance/|c| for dropped leading terms) (observed 2.57)
+const K_CONST: f64 = 16.0;
+/// dividends are shortened so that the predicted quotient growth (1 + ||d_rest||_1/|d_lead|)^(deg q + 1) stays below this
+const GROWTH_CAP: f64 = 1e40;
 
 pub fn meta() -> CheckMeta {
-    CheckMeta { id: "C12", level: "exploration", rule: "stub".into(), assumptions: vec![], exhaustive: false, stuck_is_violation: false }
+    CheckMeta {
+        id: "C12",
+        level: "exploration",
+        rule: "cases: real and complex dividends of degree 0..40 and divisors of degree 0..20 with |leading coefficient| >= 0.1 (G-poly shapes), kinds: general, exact multiple (a = d·s formed exactly and rounded once), divisor of higher degree, constant divisor, zero polynomial (9 constructions). Non-trivial: divisor degree >= 1 and quotient degree >= 1, or an exact multiple, or a zero-divisor (Err) case; distinct = hash of (field, dividend, divisor, tolerance)".into(),
+        assumptions: vec![
+            "the dividend's zero tolerance is strictly positive (default 1e-10, or 1e-13..1e-6): with tolerance 0 the library's elimination loop cannot discard an exactly-zero leading remainder term and never terminates; that input is outside the property's quantifier and is not generated".into(),
+            "the zero polynomial is presented in its one-coefficient form only (new(), from_slice(&[0]), from_slice(&[]), zero(), default(), -0.0, p - p, with_tolerance, with_capacity); divisors with a zero *leading* coefficient are outside the property (|lead| >= 0.1)".into(),
+            "remainder of an exact multiple: r = rem(backward error), so it is compared with kappa·bound where kappa = 1 + sum_k ||x^k mod d||_inf (k = deg d..deg a) is computed by the harness; kappa = 1 + small for divisors with roots inside the unit disc".into(),
+            "dividends are shortened until the predicted growth of the quotient stays below 1e40, so that no intermediate overflows".into(),
+        ],
+        exhaustive: false,
+        stuck_is_violation: false,
+    }
 }
-pub fn stages(_ctx: &Ctx) -> Vec<Stage> {
-    vec![]
+
+#[derive(Clone, Copy, PartialEq, Debug)]
+enum Kind {
+    General,
+    ExactMultiple,
+    HigherDivisor,
+    ConstDivisor,
+    ZeroDivisor(usize),
 }
-pub fn thresholds(_ctx: &Ctx, _rep: &Report) -> Vec<Threshold> {
-    vec![Threshold { what: "check not built".into(), required: 1.0, observed: 0.0 }]
+impl Kind {
+    fn name(self) -> &'static str {
+        match self {
+            Kind::General => "general",
+            Kind::ExactMultiple => "exact-multiple",
+            Kind::HigherDivisor => "divisor-of-higher-degree",
+            Kind::ConstDivisor => "constant-divisor",
+            Kind::ZeroDivisor(_) => "zero-polynomial",
+        }
+    }
+}
+
+const ZERO_FORMS: [&str; 9] = ["Polynomial::new()", "from_slice(&[0])", "from_slice(&[])", "Zero::zero()", "Default::default()", "from_slice(&[-0.0])", "with_tolerance(1e-3)", "p - p for a constant p", "with_capacity(4)"];
+
+fn zero_poly<N: Sc>(form: usize) -> Polynomial<N> {
+    match form {
+        0 => Polynomial::new(),
+        1 => Polynomial::from_slice(&[N::zero()]),
+        2 => Polynomial::from_slice(&[]),
+        3 => <Polynomial<N> as Zero>::zero(),
+        4 => Default::default(),
+        5 => Polynomial::from_slice(&[N::from_c(C64::new(-0.0, 0.0))]),
+        6 => Polynomial::with_tolerance(1e-3).unwrap(),
+        7 => {
+            let p: Polynomial<N> = Polynomial::from_slice(&[N::from_c(C64::new(3.5, 0.0))]);
+            &p - &p
+        }
+        _ => Polynomial::with_capacity(4),
+    }
+}
+
+#[derive(Clone)]
+struct DivCase {
+    complex: bool,
+    kind: Kind,
+    a: Vec<C64>,
+    d: Vec<C64>,
+    /// for exact multiples: the cofactor a = d·s
+    s: Vec<C64>,
+    tol_a: Option<f64>,
+    tol_d: Option<f64>,
+    from_slice: bool,
+    shape: String,
+}
+impl DivCase {
+    fn to_json(&self) -> J {
+        let mut j = J::obj()
+            .set("field", field_name(self.complex))
+            .set("kind", self.kind.name())
+            .set("dividend", pj(self.complex, &self.a))
+            .set("dividend_tolerance", tolj(self.tol_a))
+            .set("built_with", if self.from_slice { "from_slice (coefficients reversed)" } else { "collect() (ascending)" })
+            .set("shape", self.shape.as_str());
+        match self.kind {
+            Kind::ZeroDivisor(f) => j.put("divisor", format!("zero polynomial built as {}", ZERO_FORMS[f])),
+            _ => {
+                j.put("divisor", pj(self.complex, &self.d));
+                j.put("divisor_tolerance", tolj(self.tol_d));
+            }
+        }
+        if self.kind == Kind::ExactMultiple {
+            j.put("cofactor (dividend = round(divisor x cofactor))", pj(self.complex, &self.s));
+        }
+        j
+    }
+    fn hash(&self) -> u64 {
+        let h = CaseHash::new("c12").u(self.complex as u64).s(self.kind.name());
+        let h = hash_poly(hash_poly(h, &self.a), &self.d).f(self.tol_a.unwrap_or(-1.0));
+        match self.kind {
+            Kind::ZeroDivisor(f) => h.u(f as u64).0,
+            _ => h.0,
+        }
+    }
+}
+
+fn asc<N: Sc>(p: &Polynomial<N>) -> Vec<C64> {
+    let mut v: Vec<C64> = p.get_coefficients().iter().map(|c| c.to_c()).collect();
+    v.reverse();
+    v
+}
+
+/// 1 + sum_{k = l}^{n} || x^k mod d ||_inf : amplification of a perturbation of the dividend
+/// (max norm) into the remainder (max norm).
+fn kappa(d: &[C64], n: usize) -> f64 {
+    let l = d.len() - 1;
+    if l == 0 {
+        return 1.0;
+    }
+    let dl = d[l];
+    let mut cur = vec![C64::new(0.0, 0.0); l];
+    cur[l - 1] = C64::new(1.0, 0.0);
+    let mut k = 1.0;
+    for _ in l..=n {
+        let t = cur[l - 1] / dl;
+        let mut next = vec![C64::new(0.0, 0.0); l];
+        for j in 0..l {
+            let shifted = if j == 0 { C64::new(0.0, 0.0) } else { cur[j - 1] };
+            next[j] = shifted - t * d[j];
+        }
+        cur = next;
+        k += norminf(&cur);
+    }
+    k
+}
+
+fn run_div<N: Sc>(rep: &mut Report, c: &DivCase) {
+    let fld = N::NAME;
+    let pa: Polynomial<N> = build(&c.a, c.tol_a, c.from_slice);
+    let pd: Polynomial<N> = match c.kind {
+        Kind::ZeroDivisor(f) => zero_poly::<N>(f),
+        _ => build(&c.d, c.tol_d, c.from_slice),
+    };
+    let ta = c.tol_a.unwrap_or(DEFAULT_TOL);
+    let allow = tol_allow(c.complex, ta);
+    rep.eval();
+    rep.count(&format!("{}/{}", c.kind.name(), fld), 1);
+    let res = match guard(|| pa.divide(&pd)) {
+        Guarded::Ok(r) => r,
+        Guarded::Panic(m, l) => {
+            rep.violation("divide/panic", c.to_json(), format!("divide ({}; {}) panicked: '{}' at {}", c.kind.name(), fld, m, l));
+            return;
+        }
+        Guarded::Budget => return,
+    };
+    if let Kind::ZeroDivisor(f) = c.kind {
+        match res {
+            Err(_) => {
+                rep.count("zero-divisor/err_returned", 1);
+                rep.nontrivial(c.hash());
+            }
+            Ok((q, r)) => rep.violation("divide/zero-divisor-accepted", c.to_json(), format!("division by the zero polynomial ({}; {}) returned Ok: quotient {:?}, remainder {:?}", ZERO_FORMS[f], fld, asc(&q), asc(&r))),
+        }
+        return;
+    }
+    let (q, r) = match res {
+        Ok(v) => v,
+        Err(e) => {
+            rep.violation("divide/unexpected-err", c.to_json(), format!("divide by a polynomial with leading coefficient {:e} ({}; {}) returned Err(\"{}\")", c.d.last().unwrap().norm(), c.kind.name(), fld, e));
+            return;
+        }
+    };
+    let (qa, ra) = (asc(&q), asc(&r));
+    let (dq, dr, dd) = (q.order(), r.order(), c.d.len() - 1);
+    // ---- reconstruction a - (q d + r), in twice the working precision
+    let top = c.a.len().max(qa.len() + c.d.len() - 1).max(ra.len());
+    let one = C64::new(1.0, 0.0);
+    let mut resid: f64 = 0.0;
+    let mut at = 0;
+    for k in 0..top {
+        let mut acc = CAcc::default();
+        if k < c.a.len() {
+            acc.add(c.a[k]);
+        }
+        if k < ra.len() {
+            acc.add_prod(-ra[k], one);
+        }
+        let lo = if k + 1 > c.d.len() { k + 1 - c.d.len() } else { 0 };
+        if lo < qa.len() {
+            for i in lo..=k.min(qa.len() - 1) {
+                acc.add_prod(-qa[i], c.d[k - i]);
+            }
+        }
+        let v = acc.val().norm();
+        if !(v <= resid) {
+            resid = v;
+            at = k;
+        }
+    }
+    let unit = EPS * (norm1(&qa) * norm1(&c.d) + norm1(&c.a));
+    let bound = K_RECON * unit + allow;
+    if unit > 0.0 {
+        rep.max(&format!("reconstruction_defect_over_eps(|q|1|d|1+|a|1)/{}", fld), (resid - allow).max(0.0) / unit);
+    }
+    rep.max("quotient_norm1", norm1(&qa));
+    let mut ok = true;
+    if !(resid <= bound) {
+        ok = false;
+        rep.violation("divide/reconstruction", c.to_json().set("quotient", pj(c.complex, &qa)).set("remainder", pj(c.complex, &ra)), format!("dividend - (quotient x divisor + remainder) has a coefficient of modulus {:e} at x^{} ({}; {}); bound {:e} = {}·eps·(|q|1|d|1+|a|1) + tolerance {:e}", resid, at, c.kind.name(), fld, bound, K_RECON, allow));
+    }
+    // ---- degree of the remainder
+    if dd >= 1 {
+        if dr >= dd {
+            ok = false;
+            rep.violation("divide/remainder-degree", c.to_json().set("quotient", pj(c.complex, &qa)).set("remainder", pj(c.complex, &ra)), format!("remainder has order {} but the divisor has order {} ({}; {})", dr, dd, c.kind.name(), fld));
+        }
+    } else {
+        // constant divisor: remainder is the zero constant, quotient is a/c
+        let cst = c.d[0];
+        if dr != 0 || !(ra[0].norm() <= bound) {
+            ok = false;
+            rep.violation("divide/constant-divisor", c.to_json().set("quotient", pj(c.complex, &qa)).set("remainder", pj(c.complex, &ra)), format!("division by the constant {:e}{:+e}i left remainder {:?} (order {}), expected the zero constant ({})", cst.re, cst.im, ra, dr, fld));
+        }
+        let mut worst = 0.0f64;
+        for k in 0..c.a.len().max(qa.len()) + 2 {
+            let e = if k < c.a.len() { cdiv_ref(c.a[k], cst) } else { C64::new(0.0, 0.0) };
+            let g = q.get_coefficient(k).to_c();
+            let al = if k > dq { allow / cst.norm() } else { 0.0 };
+            let u = EPS * e.norm();
+            let err = (g - e).norm();
+            if u > 0.0 {
+                worst = worst.max((err - al).max(0.0) / u);
+            }
+            if !(err <= K_CONST * u + al) {
+                ok = false;
+                rep.violation("divide/constant-divisor", c.to_json().set("quotient", pj(c.complex, &qa)), format!("division by the constant {:e}{:+e}i: quotient coefficient of x^{} is {:e}{:+e}i, a_k/c = {:e}{:+e}i ({}): difference {:e} > {:e}", cst.re, cst.im, k, g.re, g.im, e.re, e.im, fld, err, K_CONST * u + al));
+                break;
+            }
+        }
+        rep.max(&format!("constant_divisor_err_over_eps|a_k/c|/{}", fld), worst);
+    }
+    // ---- exact multiple: zero remainder
+    if c.kind == Kind::ExactMultiple {
+        let kap = kappa(&c.d, c.a.len() - 1);
+        rep.max("exact_multiple/kappa", kap);
+        let rn = norminf(&ra);
+        if kap <= 10.0 {
+            rep.count("exact_multiple/kappa<=10", 1);
+            rep.max("exact_multiple_remainder_over_plain_bound(kappa<=10)", rn / (bound + EPS * norminf(&c.a)));
+        }
+        // the dividend itself is d·s rounded once: eps·|a_k| per coefficient
+        let b = kap * (bound + EPS * norminf(&c.a));
+        rep.max(&format!("exact_multiple_remainder_over_kappa.bound/{}", fld), rn / b);
+        if !(rn <= b) {
+            ok = false;
+            rep.violation("divide/exact-multiple-remainder", c.to_json().set("quotient", pj(c.complex, &qa)).set("remainder", pj(c.complex, &ra)), format!("dividend is an exact multiple of the divisor but the remainder has max norm {:e} > {:e} = kappa {:.3} x ({:e}) ({})", rn, b, kap, bound, fld));
+        }
+        if dr == 0 {
+            rep.count("exact_multiple/remainder_is_constant", 1);
+        }
+    }
+    if c.kind == Kind::HigherDivisor && ok {
+        rep.count("higher-divisor/ok", 1);
+    }
+    if ok {
+        let nt = (dd >= 1 && dq >= 1) || c.kind == Kind::ExactMultiple;
+        if nt {
+            rep.nontrivial(c.hash());
+            if dd >= 1 && dq >= 1 {
+                rep.count(&format!("nontrivial_general(deg d>=1, deg q>=1)/{}", fld), 1);
+            }
+        }
+        if rep.wants_sample() && c.a.len() <= 7 && dd >= 1 && dq >= 1 {
+            rep.sample(c.to_json().set("quotient", pj(c.complex, &qa)).set("remainder", pj(c.complex, &ra)).set("reconstruction_defect", resid).set("bound", bound));
+        }
+    }
+}
+
+fn run_dyn(rep: &mut Report, c: &DivCase) {
+    if c.complex {
+        run_div::<C64>(rep, c)
+    } else {
+        run_div::<f64>(rep, c)
+    }
+}
+
+fn pick_tol(rng: &mut Rng) -> Option<f64> {
+    match rng.below(12) {
+        0 => Some(1e-13),
+        1 => Some(1e-12),
+        2 => Some(1e-8),
+        3 => Some(1e-6),
+        _ => None,
+    }
+}
+
+/// divisor from G-poly with |lead| >= 0.1
+fn gen_divisor(rng: &mut Rng, complex: bool, deg: usize) -> (Vec<C64>, String) {
+    let (mut d, shape) = gen_poly(rng, complex, deg);
+    let mut shape = shape.to_string();
+    if rng.chance(0.35) && deg >= 1 {
+        // leading coefficient dominates: all roots in the unit disc, division is well conditioned
+        let rest: f64 = d[..deg].iter().map(|c| c.norm()).sum();
+        let lead = d[deg];
+        let target = (rest * rng.r(1.05, 3.0)).max(0.1).min(1e3);
+        d[deg] = if lead.norm() > 0.0 { lead / lead.norm() * target } else { C64::new(target, 0.0) };
+        if rest > target {
+            let f = target / (1.05 * rest);
+            for v in d[..deg].iter_mut() {
+                *v *= f;
+            }
+        }
+        shape.push_str("+dominant-lead");
+    }
+    let lead = d[deg];
+    if lead.norm() < 0.1 {
+        let m = rng.log10(-1.0, 3.0);
+        d[deg] = if lead.norm() > 0.0 { lead / lead.norm() * m } else { rand_unit(rng, complex) * m };
+    }
+    (d, shape)
+}
+
+fn growth(d: &[C64], qdeg: usize) -> f64 {
+    let l = d.len() - 1;
+    let rest: f64 = d[..l].iter().map(|c| c.norm()).sum();
+    (1.0 + rest / d[l].norm()).powi(qdeg as i32 + 1)
+}
+
+fn gen_case(rng: &mut Rng, complex: bool, kind: Kind) -> DivCase {
+    let tol_a = pick_tol(rng);
+    let tol_d = if rng.chance(0.8) { None } else { pick_tol(rng) };
+    let from_slice = rng.bool();
+    let zero = C64::new(0.0, 0.0);
+    match kind {
+        Kind::ZeroDivisor(_) => {
+            let da = if rng.chance(0.1) { 0 } else { rng.below(41) };
+            let (mut a, shape) = gen_poly(rng, complex, da);
+            if rng.chance(0.1) {
+                a = vec![zero];
+            }
+            DivCase { complex, kind, a, d: vec![zero], s: vec![], tol_a, tol_d: None, from_slice, shape: shape.into() }
+        }
+        Kind::ConstDivisor => {
+            let da = rng.below(41);
+            let (mut a, shape) = gen_poly(rng, complex, da);
+            let mut shape = shape.to_string();
+            shape.push_str(decorate(rng, complex, &mut a, tol_a.unwrap_or(DEFAULT_TOL)));
+            let m = rng.log10(-1.0, 3.0);
+            let cst = match rng.below(6) {
+                0 => C64::new(m, 0.0),
+                1 => C64::new(-m, 0.0),
+                2 if complex => C64::new(0.0, m),
+                3 if complex => C64::new(0.0, -m),
+                _ => rand_unit(rng, complex) * m,
+            };
+            DivCase { complex, kind, a, d: vec![cst], s: vec![], tol_a, tol_d, from_slice, shape }
+        }
+        Kind::HigherDivisor => {
+            let dd = 1 + rng.below(20);
+            let da = rng.below(dd);
+            let (d, sd) = gen_divisor(rng, complex, dd);
+            let (a, sa) = gen_poly(rng, complex, da);
+            DivCase { complex, kind, a, d, s: vec![], tol_a, tol_d, from_slice, shape: format!("{} / {}", sa, sd) }
+        }
+        Kind::General => {
+            let dd = if rng.chance(0.15) { 1 } else { 1 + rng.below(20) };
+            let (d, sd) = gen_divisor(rng, complex, dd);
+            let mut da = if rng.chance(0.1) { dd } else { dd + rng.below(41 - dd) };
+            while da > dd && growth(&d, da - dd) > GROWTH_CAP {
+                da -= 1;
+            }
+            let (mut a, sa) = gen_poly(rng, complex, da);
+            let mut shape = format!("{} / {}", sa, sd);
+            shape.push_str(decorate(rng, complex, &mut a, tol_a.unwrap_or(DEFAULT_TOL)));
+            DivCase { complex, kind, a, d, s: vec![], tol_a, tol_d, from_slice, shape }
+        }
+        Kind::ExactMultiple => {
+            let dd = 1 + rng.below(20);
+            let (d, sd) = gen_divisor(rng, complex, dd);
+            let mut ds = rng.below(41 - dd);
+            while ds > 0 && growth(&d, ds) > GROWTH_CAP {
+                ds -= 1;
+            }
+            let (s, ss) = gen_poly(rng, complex, ds);
+            let a = conv_exact(&d, &s);
+            DivCase { complex, kind, a, d, s, tol_a, tol_d, from_slice, shape: format!("({}) x ({})", sd, ss) }
+        }
+    }
+}
+
+fn fixed_cases() -> Vec<DivCase> {
+    let c = |re: f64, im: f64| C64::new(re, im);
+    let r = |v: &[f64]| -> Vec<C64> { v.iter().map(|x| C64::new(*x, 0.0)).collect() };
+    let mk = |complex: bool, kind: Kind, a: Vec<C64>, d: Vec<C64>, s: Vec<C64>| DivCase { complex, kind, a, d, s, tol_a: None, tol_d: None, from_slice: false, shape: "fixed".into() };
+    let mut v = vec![
+        // (x^2 - 1) / (x + 1) and (x^3 - 2x^2 + x + 1) / (x^2 + 1): the repository's old examples
+        mk(false, Kind::ExactMultiple, r(&[-1.0, 0.0, 1.0]), r(&[1.0, 1.0]), r(&[-1.0, 1.0])),
+        mk(false, Kind::General, r(&[1.0, 1.0, -2.0, 1.0]), r(&[1.0, 0.0, 1.0]), vec![]),
+        // (x^3 - 6x^2 + 11x - 6) / (x - 1)
+        mk(false, Kind::ExactMultiple, r(&[-6.0, 11.0, -6.0, 1.0]), r(&[-1.0, 1.0]), r(&[6.0, -5.0, 1.0])),
+        mk(true, Kind::ExactMultiple, r(&[-6.0, 11.0, -6.0, 1.0]), r(&[-1.0, 1.0]), r(&[6.0, -5.0, 1.0])),
+        // divisor equal to the dividend, dividend zero, divisor of higher degree
+        mk(false, Kind::ExactMultiple, r(&[2.0, -3.0, 0.5]), r(&[2.0, -3.0, 0.5]), r(&[1.0])),
+        mk(false, Kind::General, r(&[0.0]), r(&[1.0, 2.0, 3.0]), vec![]),
+        mk(true, Kind::General, r(&[0.0]), vec![c(1.0, 1.0), c(0.0, 2.0)], vec![]),
+        mk(false, Kind::HigherDivisor, r(&[1.0, 2.0]), r(&[1.0, 2.0, 3.0, 4.0]), vec![]),
+        // constant divisors, including complex ones lying on an axis
+        mk(false, Kind::ConstDivisor, r(&[1.0, 2.0, 3.0]), r(&[4.0]), vec![]),
+        mk(false, Kind::ConstDivisor, r(&[1.0, 2.0, 3.0]), r(&[-0.125]), vec![]),
+        mk(true, Kind::ConstDivisor, vec![c(1.0, 1.0), c(2.0, -1.0), c(0.0, 3.0)], vec![c(2.0, 0.0)], vec![]),
+        mk(true, Kind::ConstDivisor, vec![c(1.0, 1.0), c(2.0, -1.0), c(0.0, 3.0)], vec![c(0.0, 2.0)], vec![]),
+        mk(true, Kind::ConstDivisor, vec![c(1.0, 1.0), c(2.0, -1.0), c(0.0, 3.0)], vec![c(0.0, -0.5)], vec![]),
+        mk(true, Kind::ConstDivisor, vec![c(1.0, 1.0), c(2.0, -1.0), c(0.0, 3.0)], vec![c(3.0, -4.0)], vec![]),
+        mk(false, Kind::ConstDivisor, r(&[0.0]), r(&[5.0]), vec![]),
+        // complex: (x - i)(x + i)(x - 2) / (x - i)
+        mk(true, Kind::ExactMultiple, conv_exact(&[c(0.0, -1.0), c(1.0, 0.0)], &conv_exact(&[c(0.0, 1.0), c(1.0, 0.0)], &[c(-2.0, 0.0), c(1.0, 0.0)])), vec![c(0.0, -1.0), c(1.0, 0.0)], conv_exact(&[c(0.0, 1.0), c(1.0, 0.0)], &[c(-2.0, 0.0), c(1.0, 0.0)])),
+        // complex divisor with a purely imaginary / purely real leading coefficient
+        mk(true, Kind::General, vec![c(1.0, 0.0), c(0.0, 1.0), c(2.0, 2.0), c(-1.0, 0.5)], vec![c(1.0, -1.0), c(0.0, 0.5)], vec![]),
+        mk(true, Kind::General, vec![c(1.0, 0.0), c(0.0, 1.0), c(2.0, 2.0), c(-1.0, 0.5)], vec![c(1.0, -1.0), c(0.25, 0.0)], vec![]),
+    ];
+    for complex in [false, true] {
+        for f in 0..ZERO_FORMS.len() {
+            v.push(mk(complex, Kind::ZeroDivisor(f), r(&[1.0, -2.0, 0.0, 4.0]), r(&[0.0]), vec![]));
+            v.push(mk(complex, Kind::ZeroDivisor(f), r(&[0.0]), r(&[0.0]), vec![]));
+            v.push(mk(complex, Kind::ZeroDivisor(f), r(&[7.0]), r(&[0.0]), vec![]));
+        }
+    }
+    v
+}
+
+pub fn stages(ctx: &Ctx) -> Vec<Stage> {
+    let seed = ctx.seed;
+    let tier = ctx.tier;
+    let fixed = fixed_cases();
+    let nf = fixed.len() as u64;
+    let mut st = vec![];
+    // anchors: the fixed list, then 60 seed-independent cases of every kind in both fields
+    st.push(Stage::new("anchors", nf + 2 * 5 * 60, move |i, rep| {
+        if i < nf {
+            run_dyn(rep, &fixed[i as usize]);
+            return;
+        }
+        let j = i - nf;
+        let complex = j % 2 == 1;
+        let kind = match (j / 2) % 5 {
+            0 => Kind::General,
+            1 => Kind::ExactMultiple,
+            2 => Kind::HigherDivisor,
+            3 => Kind::ConstDivisor,
+            _ => Kind::ZeroDivisor(((j / 10) % 9) as usize),
+        };
+        let mut rng = Rng::for_case(0xC12, "c12-anchor", j);
+        let c = gen_case(&mut rng, complex, kind);
+        run_dyn(rep, &c);
+    }));
+    st.push(Stage::new("random", tier.pick(5_000, 200_000), move |i, rep| {
+        let mut rng = Rng::for_case(seed, "c12-random", i);
+        let complex = i % 2 == 1;
+        let k = rng.below(100);
+        let kind = if k < 50 {
+            Kind::General
+        } else if k < 75 {
+            Kind::ExactMultiple
+        } else if k < 83 {
+            Kind::HigherDivisor
+        } else if k < 93 {
+            Kind::ConstDivisor
+        } else {
+            Kind::ZeroDivisor(rng.below(9))
+        };
+        let c = gen_case(&mut rng, complex, kind);
+        run_dyn(rep, &c);
+    }));
+    st
+}
+
+pub fn thresholds(ctx: &Ctx, rep: &Report) -> Vec<Threshold> {
+    let mut t = vec![];
+    let q = |a: f64, b: f64| ctx.tier.pick(a, b);
+    for fld in ["f64", "c64"] {
+        t.push(Threshold { what: format!("general divisions with divisor degree >= 1 and quotient degree >= 1 that passed every check ({})", fld), required: q(800.0, 30_000.0), observed: rep.counter(&format!("nontrivial_general(deg d>=1, deg q>=1)/{}", fld)) as f64 });
+        t.push(Threshold { what: format!("exact multiples ({})", fld), required: q(400.0, 15_000.0), observed: rep.counter(&format!("exact-multiple/{}", fld)) as f64 });
+        t.push(Threshold { what: format!("divisors of higher degree than the dividend ({})", fld), required: q(100.0, 4_000.0), observed: rep.counter(&format!("divisor-of-higher-degree/{}", fld)) as f64 });
+        t.push(Threshold { what: format!("constant divisors ({})", fld), required: q(150.0, 5_000.0), observed: rep.counter(&format!("constant-divisor/{}", fld)) as f64 });
+        t.push(Threshold { what: format!("divisions by the zero polynomial ({})", fld), required: q(100.0, 3_000.0), observed: rep.counter(&format!("zero-polynomial/{}", fld)) as f64 });
+    }
+    t.push(Threshold { what: "exact multiples with a well-conditioned remainder map (kappa <= 10), where 'zero remainder' is sharp".into(), required: q(200.0, 8_000.0), observed: rep.counter("exact_multiple/kappa<=10") as f64 });
+    t.push(Threshold { what: "divisions by the zero polynomial answered with Err".into(), required: q(200.0, 6_000.0), observed: rep.counter("zero-divisor/err_returned") as f64 });
+    t
 }
